@@ -149,6 +149,13 @@ pub struct C07 {
     pub history: Vec<HOp>,
     pub triples: Triples,
     pub tape: Vec<Op>,
+    /// Recorded materialization outputs. The runtime commit path clears the bus, so its own entries
+    /// never carry outputs; with a plan, the recorded history is re-appended to a fresh provenance
+    /// service with outputs on the ticks whose bit is set (entry t uses bit t % len; outputs are not
+    /// bound by the commit hash), so replays cross emitting and silent ticks. Live checkpoints of the
+    /// history are skipped in that case (the tape places its own).
+    #[serde(default)]
+    pub outputs_plan: Option<Vec<bool>>,
 }
 
 const N_SLOTS: u8 = 3;
@@ -268,7 +275,8 @@ impl Scenario for C07 {
                 _ => Op::ReplayFull { lane, base: gen_base(rng) },
             });
         }
-        C07 { world, history, triples, tape }
+        let outputs_plan = if rng.chance(1, 2) { Some((0..rng.urange(2, 6)).map(|_| rng.chance(1, 2)).collect()) } else { None };
+        C07 { world, history, triples, tape, outputs_plan }
     }
 
     fn execute(&self, ctx: &mut RunCtx) -> Outcome {
@@ -459,6 +467,8 @@ struct Root {
     live: Vec<LiveTick>,
     abs0: RefState,
     root0: Hash,
+    /// recorded outputs per entry
+    outputs: Vec<Vec<(warp_core::TypeId, Vec<u8>)>>,
 }
 
 struct Lane {
@@ -646,6 +656,12 @@ impl Oracle {
             (s, _) => {
                 return Err(Outcome::violation("replay_vs_live:commit_id", format!("{who}: last_snapshot {:?}", s.map(|s| hx(&s.hash)))));
             }
+        }
+        // the materialization a state at tick t carries is what entry t-1 recorded
+        let exp_out: Vec<(warp_core::TypeId, Vec<u8>)> = if t == 0 { Vec::new() } else { r.outputs.get(t as usize - 1).cloned().unwrap_or_default() };
+        let got_out: Vec<(warp_core::TypeId, Vec<u8>)> = st.last_materialization().iter().map(|c| (c.channel, c.data.clone())).collect();
+        if got_out != exp_out && !(child && t as usize > r.outputs.len()) {
+            return Err(Outcome::violation("replay_vs_history:last_materialization", format!("{who}: the replayed state carries {} output channels, entry {} of the history recorded {}", got_out.len(), t.saturating_sub(1), exp_out.len())));
         }
         // (b) replay vs replay
         if compare_text {
@@ -994,6 +1010,7 @@ impl C07 {
                         break;
                     }
                 },
+                HOp::LiveCheckpoint { .. } if self.outputs_plan.is_some() => {}
                 HOp::LiveCheckpoint { wl } => {
                     let Some(f) = world.runtime.worldlines().get(&wl_id(*wl)) else { continue };
                     let t = f.frontier_tick().as_u64();
@@ -1012,6 +1029,32 @@ impl C07 {
                 }
             }
         }
+        if let Some(plan) = self.outputs_plan.as_ref().filter(|p| !p.is_empty()) {
+            let mut rebuilt = ProvenanceService::new();
+            for (wl, base) in self.world.worldlines.iter().zip(&fresh) {
+                rebuilt.register_worldline(wl_id(wl.id), base).map_err(|e| Outcome::violation("harness:rebuild_register", format!("{e:?}")))?;
+            }
+            // entries in global commit order (cross-lane parents must exist when cited)
+            let mut all: Vec<ProvenanceEntry> = Vec::new();
+            for wl in &self.world.worldlines {
+                let n = world.provenance.len(wl_id(wl.id)).unwrap_or(0);
+                for t in 0..n {
+                    all.push(world.provenance.entry(wl_id(wl.id), wt(t)).map_err(|e| Outcome::violation("harness:rebuild_entry", format!("{e:?}")))?);
+                }
+            }
+            all.sort_by_key(|e| (e.commit_global_tick, e.worldline_id, e.worldline_tick));
+            for mut e in all {
+                let t = e.worldline_tick.as_u64() as usize;
+                if plan[t % plan.len()] {
+                    let ch = warp_core::materialization::make_channel_id(&format!("verif/c07/{}", t % 2));
+                    e.outputs = vec![(ch, vec![0xC7, t as u8, (t >> 8) as u8])];
+                    ctx.hit("reach.history_entry_with_outputs");
+                }
+                rebuilt.append_local_commit(e).map_err(|e| Outcome::violation("harness:rebuild_append", format!("{e:?}")))?;
+            }
+            world.provenance = rebuilt;
+            live_cps.clear();
+        }
         let World { runtime, provenance: prov, live, .. } = &mut world;
         // ---- lanes and ground truth
         let mut oracle = Oracle { roots: Vec::new(), lanes: Vec::new(), seen: BTreeMap::new(), multi_path: false, warps };
@@ -1021,6 +1064,10 @@ impl C07 {
             let len = lv.len() as u64;
             total_ticks += len;
             let plen = prov.len(wl_id(wl.id)).map_err(|e| Outcome::violation("harness:provenance_len", format!("{e:?}")))?;
+            let outs: Vec<Vec<(warp_core::TypeId, Vec<u8>)>> = (0..plen).map(|t| prov.entry(wl_id(wl.id), wt(t)).map(|e| e.outputs).unwrap_or_default()).collect();
+            if outs.windows(2).any(|w| !w[0].is_empty() && w[1].is_empty()) {
+                ctx.hit("reach.silent_tick_after_emitting_tick");
+            }
             if plen != len {
                 return Err(Outcome::violation("harness:provenance_len_vs_live", format!("worldline {}: {plen} entries, {len} live ticks", wl.id)));
             }
@@ -1031,7 +1078,7 @@ impl C07 {
                 }
             }
             let (abs0, root0) = t0[i].clone();
-            oracle.roots.push(Root { live: lv, abs0, root0 });
+            oracle.roots.push(Root { live: lv, abs0, root0, outputs: outs });
             oracle.lanes.push(Lane { wl: wl_id(wl.id), root: i, len, cps: live_cps.get(&wl.id).cloned().unwrap_or_default(), in_runtime: true, child: false });
         }
         ctx.count("time.ticks", total_ticks);
